@@ -3,6 +3,7 @@ import ZapVerif.Proofs.TransMultiWS
 import ZapVerif.Proofs.TransLocked
 import ZapVerif.Proofs.Merge
 import ZapVerif.Gen.Delegates
+import ZapVerif.Proofs.TransWriters
 /-! # C13 — zap's writers and WriteSyncer combinators honour the io.Writer contract -/
 namespace ZapVerif.C13
 open ZapVerif ZapVerif.Writers
@@ -292,5 +293,82 @@ theorem lockedWriteSyncer_Sync_matches_source (P : Par) (n : Int) (werrs serrs e
   show (exec (X P) (fuel + 1) lockedWriteSyncer_Sync_body ⟨[], _⟩).fin = _
   rw [exec_succ]
   simp [lockedWriteSyncer_Sync_body, nm_lock, nm_unlock, TransLocked.nm_wsync]
+
+end ZapVerif.C13
+
+/-! ## the small writers ARE the source (translator round 4, table `Gen/TransWriters.lean`)
+
+global.go `(*loggerWriter).Write` (the standard-library log bridge), zaptest `TestingWriter.Write`, zapcore `AddSync`,
+`writerWrapper.Sync`, `Lock`, `NewMultiWriteSyncer`, translated mechanically, are interpreted with `bytes.TrimSpace` /
+`TrimRight` and the two type assertions as parameters, the log function / `t.Logf` / `t.Fail` as recorded calls.  The
+bridge and the testing writer report `len(p)` of what they were HANDED and a nil error whatever the trim leaves
+(`Writers.writerWrite`, the function of `full_count`); `AddSync` / `Lock` return what `Writers.addSync` / `lock` describe. -/
+set_option linter.unusedSimpArgs false
+namespace ZapVerif.C13
+open ZapVerif ZapVerif.GoMini ZapVerif.TransWriters ZapVerif.Gen.TransWriters
+
+/-- the std-log bridge `(*loggerWriter).Write`: ONE call of the log function with the space-trimmed text, and the count
+    returned is the length of what was HANDED IN (`len(p)` is taken before trimming), the error nil — `Writers.writerWrite` -/
+theorem loggerWriter_Write_matches_source (P : Par) (p : Bytes) (f : Val) (ev : List Val) (fuel : Nat) :
+    run (X P) (fuel + 1) "loggerWriter_Write" [.bytes p] [("ev", .list ev), ("logFunc", f)] =
+      .done [.int (Writers.writerWrite p).1, .list []]
+        [("ev", .list (ev ++ [.list [TransWriters.nm "LogFunc.call", f, .bytes (P.trimSpace p)]])), ("logFunc", f)] := by
+  apply run_of_fin (X P) _ _ Gen.TransWriters.loggerWriter_Write _ _ _ _ rfl rfl
+  rw [exec_succ]
+  simp [loggerWriter_Write_body, nm_logFunc, Writers.writerWrite]
+
+/-- `TestingWriter.Write`: ONE `t.Logf("%s", p without trailing newlines)`, then `t.Fail()` iff `markFailed`; `len(p)`
+    of what was handed in and a nil error -/
+theorem TestingWriter_Write_matches_source (P : Par) (p : Bytes) (t : Val) (mf : Bool) (ev : List Val) (fuel : Nat) :
+    run (X P) (fuel + 1) "TestingWriter_Write" [.bytes p] [("ev", .list ev), ("t", t), ("markFailed", .bool mf)] =
+      .done [.int (Writers.writerWrite p).1, .list []]
+        [("ev", .list (ev ++ .list [TransWriters.nm "TB.Logf", t, .bytes [37, 115], .bytes (P.trimRight p [10])] ::
+            (if mf then [.list [TransWriters.nm "TB.Fail", t]] else []))), ("t", t), ("markFailed", .bool mf)] := by
+  apply run_of_fin (X P) _ _ Gen.TransWriters.TestingWriter_Write _ _ _ _ rfl rfl
+  rw [exec_succ]
+  cases mf <;> simp [TestingWriter_Write_body, nm_logf, nm_fail, Writers.writerWrite]
+
+/-- `AddSync`: a writer that IS a WriteSyncer is returned as is (its own Sync is kept); anything else is wrapped in
+    `writerWrapper{w}`, whose `Sync` is a no-op (next theorem) — `Writers.addSync` -/
+theorem AddSync_matches_source (P : Par) (w : Val) (fl : Env) (fuel : Nat) :
+    run (X P) (fuel + 1) "AddSync" [w] fl =
+      .done [match P.asWS w with | some ws => ws | none => .list [.list [w]]] fl := by
+  apply run_of_fin (X P) _ _ Gen.TransWriters.AddSync _ _ _ _ rfl rfl
+  rw [exec_succ]
+  cases h : P.asWS w <;> simp [AddSync_body, h]
+
+theorem writerWrapper_Sync_matches_source (P : Par) (fl : Env) (fuel : Nat) :
+    run (X P) (fuel + 1) "writerWrapper_Sync" [] fl = .done [.list []] fl := by
+  apply run_of_fin (X P) _ _ Gen.TransWriters.writerWrapper_Sync _ _ _ _ rfl rfl
+  rw [exec_succ]; simp [writerWrapper_Sync_body]
+
+/-- `Lock`: an already locked syncer is returned as is (no second layer); anything else gets ONE fresh
+    `lockedWriteSyncer` (zero mutex) around it -/
+theorem Lock_matches_source (P : Par) (ws : Val) (fl : Env) (fuel : Nat) :
+    run (X P) (fuel + 1) "Lock" [ws] fl = .done [if P.isLocked ws then ws else .list [.list [.list [], ws]]] fl := by
+  apply run_of_fin (X P) _ _ Gen.TransWriters.Lock _ _ _ _ rfl rfl
+  rw [exec_succ]
+  cases h : P.isLocked ws <;> simp [Lock_body, h]
+
+/-- `NewMultiWriteSyncer`: ONE syncer is returned itself; otherwise the multi-syncer over exactly the given ones in order -/
+theorem NewMultiWriteSyncer_matches_source (P : Par) (ws : List Val) (fl : Env) (fuel : Nat) :
+    run (X P) (fuel + 1) "NewMultiWriteSyncer" [.list ws] fl =
+      .done [match ws with | [w] => w | _ => .list [.list ws]] fl := by
+  apply run_of_fin (X P) _ _ Gen.TransWriters.NewMultiWriteSyncer _ _ _ _ rfl rfl
+  rw [exec_succ]
+  cases ws with
+  | nil => simp [NewMultiWriteSyncer_body]
+  | cons a r =>
+    cases r with
+    | nil => simp [NewMultiWriteSyncer_body]
+    | cons b r' =>
+      have h1 : ¬ ((r'.length : Int) + 1 + 1 = 1) := by omega
+      simp [NewMultiWriteSyncer_body, h1]
+
+/-- the decisions of the translated `AddSync` (+ `writerWrapper.Sync`) are `Writers.addSync`: whether a later `Sync`
+    reaches the sink, and with which error -/
+theorem AddSync_is_addSync (isWS : Bool) (o : Writers.Out) (se : Bool) :
+    Writers.addSync isWS o se = (o.n, o.err, isWS, if isWS then se else false) := by
+  cases isWS <;> simp [Writers.addSync]
 
 end ZapVerif.C13
